@@ -11,7 +11,7 @@
    [shape_stmt] forgets source positions (label offsets and the statement span). *)
 From Coq Require Import ZArith List Bool String.
 From Model Require Import Tree Text Instr AsmAst Lexer Parser Print.
-From Proofs Require Import PiecesProofs PrintParseProofs.
+From Proofs Require Import PiecesProofs PrintParseProofs ImageProofs.
 Import ListNotations.
 Open Scope Z_scope.
 
@@ -19,6 +19,20 @@ Theorem C36_roundtrip : forall s, in_parser_image s = true -> printable_strings 
   exists s', parse_ast (print_stmt s) = POk [s'] /\ shape_stmt s' = shape_stmt s.
 Proof. exact print_parse_roundtrip. Qed.
 Print Assumptions C36_roundtrip.
+
+(* the parser only produces statements of its image: [in_parser_image] is not an extra assumption *)
+Theorem C36_parser_image : forall t l, parse_ast t = POk l -> forallb in_parser_image l = true.
+Proof. exact parse_ast_image. Qed.
+Print Assumptions C36_parser_image.
+
+(* the property as stated: any statement the parser produced, printed and parsed again *)
+Theorem C36_roundtrip_parsed : forall t l s, parse_ast t = POk l -> In s l -> printable_strings s = true ->
+  exists s', parse_ast (print_stmt s) = POk [s'] /\ shape_stmt s' = shape_stmt s.
+Proof.
+  intros t l s Hp Hin Hs. apply C36_roundtrip; [|exact Hs].
+  pose proof (parse_ast_image t l Hp) as H. rewrite forallb_forall in H. apply H. exact Hin.
+Qed.
+Print Assumptions C36_roundtrip_parsed.
 
 (* the printed text is lexed into exactly the tokens of its pieces (canonical layout) *)
 Theorem C36_printed_tokens : forall s, in_parser_image s = true -> printable_strings s = true ->
